@@ -351,8 +351,8 @@ func (r *rewriter) rewriteForRanges(c *astutil.Cursor, pkg loader.Pkg) bool {
 //		$body
 //	}
 func (r *rewriter) rewriteForRange(pkg loader.Pkg, fr *ast.RangeStmt) *ast.ForStmt {
-	isValid := fr.Key != nil && fr.Value == nil
-	r.assert(pkg, isValid, fr, "invalid for range")
+	// an iterator delivers one value per step, `for range it` takes none of it
+	r.assert(pkg, fr.Value == nil, fr, "invalid for range")
 
 	// iter := X.Ident(cstIterVar)
 	iter := pkg.NewIdent(cstIterVar, pkg.TypeOf(fr.X))
@@ -361,10 +361,13 @@ func (r *rewriter) rewriteForRange(pkg loader.Pkg, fr *ast.RangeStmt) *ast.ForSt
 
 	init := X.Define(iter, fr.X)
 	cond := X.Call(next)
-	body := X.Block1(
-		X.Assign(fr.Tok, fr.Key, X.Call(current)),
-		fr.Body.List...,
-	)
+	body := X.Block(fr.Body.List...)
+	if fr.Key != nil {
+		body = X.Block1(
+			X.Assign(fr.Tok, fr.Key, X.Call(current)),
+			fr.Body.List...,
+		)
+	}
 	return X.ForStmt(init, cond, nil, body)
 }
 
